@@ -541,6 +541,32 @@ fn family_cpio(g: &mut Gen<'_>, rng: &mut Rng, n_random: usize) {
     for a in archives {
         g.push("hostile-cpio", mk(a));
     }
+    // the layout rpmbuild writes for hard links: n members of one inode with nlink = n and no data,
+    // all listed in the header, the last one carrying the content. Nothing here is malformed; memory
+    // must stay proportional to the input, not to links x content
+    for (n, size) in [(50usize, 20_000usize), (400, 300_000), (1500, 100_000)] {
+        let content = vec![b'h'; size];
+        let mut hl: Vec<HFile> = Vec::new();
+        let mut a = Vec::new();
+        for i in 0..n {
+            let last = i + 1 == n;
+            let body: &[u8] = if last { &content } else { b"" };
+            hl.push(HFile::new("/h/", &format!("link{i:04}"), 0o100644, &content));
+            let mut name = format!("./h/link{i:04}").into_bytes();
+            name.push(0);
+            let mut e = mcpio::enc_newc_header(b"070701", [5, 0o100644, 0, 0, n as u32, 0, body.len() as u32, 0, 0, 0, 0, name.len() as u32, 0], &name);
+            while e.len() % 4 != 0 {
+                e.push(0);
+            }
+            e.extend_from_slice(body);
+            while e.len() % 4 != 0 {
+                e.push(0);
+            }
+            a.extend(e);
+        }
+        a.extend(mcpio::enc_trailer());
+        g.push("hard-links", package_with_files("hardlinks", &hl, &a, None, false));
+    }
     // random byte-level mutations of a valid archive
     let valid = [good(0), good(1), good(2), mcpio::enc_trailer()].concat();
     for _ in 0..n_random {
@@ -824,6 +850,18 @@ fn run(ctx: &Ctx, rep: &Report) {
         sanitizer_replays(ctx, rep, sample, &mut rng);
     }
     feature_sets(ctx, rep);
+    // the same reader behind Package::open on a path that is not a regular file: valid packages and
+    // prefixes of them arriving through a pipe (what stat() says about such a path is meaningless)
+    for (label, b) in &targets {
+        for cut in [b.len(), b.len() / 2, 97, 0] {
+            rep.eval(1);
+            let d = &b[..cut.min(b.len())];
+            match guard(|| crate::util::open_through_pipe(d)) {
+                Ok(_) => rep.count("open_through_pipe.returned", 1),
+                Err(p) => rep.violation(format!("panic:open-on-pipe:{}", p.site()), format!("Package::open on a pipe carrying {} bytes of {label} panics: {}", d.len(), p.message), json!({"family": "open-on-pipe", "input_hex": hex::encode(d)}), d.len() as u64),
+            }
+        }
+    }
 }
 
 /// hostile compressed payloads around a valid file list
